@@ -454,8 +454,10 @@ func (f *Frame) loopCut(li *loopInfo, cur *State) {
 	if c != nil && !f.pure {
 		env := f.loopEnv(li, cur, nil)
 		for _, inv := range c.Invs {
-			g := f.evalClause(inv, env, cur, &f.entry)
-			un.obligeNamed(cur, fmt.Sprintf("loop#%d/invariant#%s.init", li.ordinal, inv.label()), "invariant", inv.Text, inv.Pos, g)
+			gs := f.evalGoals(inv, env, cur, &f.entry)
+			for gi, g := range gs {
+				un.obligeNamed(cur, fmt.Sprintf("loop#%d/invariant#%s%s.init", li.ordinal, inv.label(), partSuffix(gi, len(gs))), "invariant", inv.Text, inv.Pos, g)
+			}
 		}
 	}
 	li.entrySt = cur.clone()
@@ -540,7 +542,9 @@ func (f *Frame) loopBack(li *loopInfo, from *ssa.BasicBlock, st *State) {
 	}
 	env := f.loopEnv(li, st, phiVals)
 	for _, inv := range c.Invs {
-		g := f.evalClause(inv, env, st, &f.entry)
-		f.un.obligeNamed(st, fmt.Sprintf("loop#%d/invariant#%s.preserve@b%d", li.ordinal, inv.label(), from.Index), "invariant", inv.Text, inv.Pos, g)
+		gs := f.evalGoals(inv, env, st, &f.entry)
+		for gi, g := range gs {
+			f.un.obligeNamed(st, fmt.Sprintf("loop#%d/invariant#%s%s.preserve@b%d", li.ordinal, inv.label(), partSuffix(gi, len(gs)), from.Index), "invariant", inv.Text, inv.Pos, g)
+		}
 	}
 }
